@@ -35,7 +35,7 @@ type stats struct {
 	stalledDuringWrite, burstCoalesced, burstWithDelete, timeoutFired, shortStallSurvived     bool
 	exactChecked, removeWithSub, removeStarSurvives, resetSeen, staticRound, dynamicRound     bool
 	modelAmbiguous, backdated, richNames, sleptWithACL, parkedInsideFeed, removeReaddRace     bool
-	startedWhileInsideFeed                                                                    bool
+	startedWhileInsideFeed, mixedEnc, nilPath, perPathOrigins                                 bool
 	skippedSteps, maxBulk, maxOnceLeaves                                                      int
 }
 
@@ -76,6 +76,9 @@ func (s *stats) labels() []string {
 	add(s.parkedInsideFeed, "writer-parked-inside-the-feed-callback")
 	add(s.startedWhileInsideFeed, "subscription-started-while-a-writer-was-inside-the-feed-callback")
 	add(s.removeReaddRace, "remove-racing-with-re-add-and-update")
+	add(s.mixedEnc, "writer-notification-in-deprecated-or-mixed-path-encoding")
+	add(s.nilPath, "subscription-with-unset-path")
+	add(s.perPathOrigins, "paths-of-one-request-with-different-origins")
 	add(s.backdated, "backdated-notification")
 	add(s.richNames, "names-with-common-string-prefix-or-slash")
 	add(s.sleptWithACL, "quiet-period-with-acl")
@@ -305,7 +308,9 @@ func valRepr(n *pb.Notification) string {
 	if len(n.Update) != 1 {
 		return fmt.Sprintf("malformed:%d-updates", len(n.Update))
 	}
-	b, _ := mo.Marshal(n.Update[0].GetVal())
+	// the value in either encoding (val, or the deprecated value field)
+	c := &pb.Update{Val: n.Update[0].GetVal(), Value: n.Update[0].GetValue()}
+	b, _ := mo.Marshal(c)
 	return fmt.Sprintf("%x", b)
 }
 
@@ -434,8 +439,9 @@ func (w *world) newSub(i int, spec SubSpec) *subState {
 	if spec.Target >= 0 {
 		s.target = targetName(spec.Target % w.sc.Targets)
 	}
-	prefix := gn.Path(s.target, spec.POrigin, spec.PElems, false, 0)
+	prefix := gn.Path(s.target, spec.POrigin, spec.PElems, spec.PElement, 0)
 	sl := &pb.SubscriptionList{Prefix: prefix, UpdatesOnly: spec.UpdatesOnly}
+	origins := map[string]bool{}
 	switch spec.Mode {
 	case "once":
 		sl.Mode = pb.SubscriptionList_ONCE
@@ -445,7 +451,15 @@ func (w *world) newSub(i int, spec SubSpec) *subState {
 		sl.Mode = pb.SubscriptionList_STREAM
 	}
 	for _, p := range spec.Paths {
-		pp := gn.Path("", p.Origin, p.Elems, false, 0)
+		pp := gn.Path("", p.Origin, p.Elems, p.Element, 0)
+		if p.Unset && p.Origin == "" && len(p.Elems) == 0 {
+			pp = nil
+			w.st.nilPath = true
+		}
+		origins[p.Origin] = true
+		if len(origins) > 1 {
+			w.st.perPathOrigins = true
+		}
 		sl.Subscription = append(sl.Subscription, &pb.Subscription{Path: pp})
 		full, ok := completePath(prefix, pp)
 		if !ok {
@@ -506,13 +520,22 @@ func (w *world) buildNoti(op *WOp) *pb.Notification {
 			}
 		}
 	}
-	n := &pb.Notification{Timestamp: ts, Prefix: gn.Path(name, origin, prefix, false, 0), Atomic: op.Atomic}
+	// Enc: 0 structured everywhere, 1 deprecated strings everywhere, 2 prefix deprecated + paths structured,
+	// 3 prefix structured + paths deprecated, 4 structured plus stray deprecated strings (to be ignored)
+	pfx := gn.Path(name, origin, prefix, op.Enc == 1 || op.Enc == 2, 0)
+	if op.Enc == 4 && len(pfx.Elem) > 0 {
+		pfx.Element = []string{"stray"}
+	}
+	if op.Enc != 0 {
+		w.st.mixedEnc = true
+	}
+	n := &pb.Notification{Timestamp: ts, Prefix: pfx, Atomic: op.Atomic}
 	for i, u := range op.Updates {
 		p := u.Path
 		if i == 0 && first != nil {
 			p = first
 		}
-		n.Update = append(n.Update, &pb.Update{Path: gn.Path("", "", p, false, 0), Val: u.Val.TV()})
+		n.Update = append(n.Update, gn.MakeUpdate(w.wpath(op, p), u.Val))
 	}
 	if b := op.Bulk; b != nil && !op.Atomic {
 		for i := b.Start; i < b.Start+b.N; i++ {
@@ -520,7 +543,7 @@ func (w *world) buildNoti(op *WOp) *pb.Notification {
 			if b.Leaf != "" {
 				p = append(p, gn.Elem{Name: b.Leaf})
 			}
-			n.Update = append(n.Update, &pb.Update{Path: gn.Path("", "", p, false, 0), Val: gn.Val{Kind: "int", I: b.V}.TV()})
+			n.Update = append(n.Update, &pb.Update{Path: w.wpath(op, p), Val: gn.Val{Kind: "int", I: b.V}.TV()})
 		}
 		if b.N > w.st.maxBulk {
 			w.st.maxBulk = b.N
@@ -534,9 +557,18 @@ func (w *world) buildNoti(op *WOp) *pb.Notification {
 				p = append(append([]gn.Elem{}, p[:len(p)-1]...), gn.Elem{Name: "*"})
 			}
 		}
-		n.Delete = append(n.Delete, gn.Path("", "", p, false, 0))
+		n.Delete = append(n.Delete, w.wpath(op, p))
 	}
 	return n
+}
+
+// wpath builds an update/delete path of a writer notification in the encoding op.Enc asks for.
+func (w *world) wpath(op *WOp, p []gn.Elem) *pb.Path {
+	out := gn.Path("", "", p, op.Enc == 1 || op.Enc == 3, 0)
+	if op.Enc == 4 && len(out.Elem) > 0 {
+		out.Element = []string{"stray", "x"}
+	}
+	return out
 }
 
 func (w *world) recordSubmitted(n *pb.Notification) {
